@@ -328,6 +328,68 @@ Definition habs (h : heap) (q : hlru) : hres (list (addr * entry)) :=
   hdo (_, _, _, first) <- hread h (hhead q);
   walk (S (length (hidx q))) h first (htail q).
 
+(** read the pair stored in a node and optionally store [w] through the returned [&mut V] *)
+Definition h_write (h : heap) (n : addr) (w : option val) : hres (heap * entry) :=
+  hdo (kk, ov, p, x) <- hread h n;
+  match kk, ov with
+  | Some k, Some old =>
+    HOk (match w with Some w => hupd h n (Node kk (Some w) p x) | None => h end, (k, old))
+  | _, _ => HErr EUninit
+  end.
+
+(** [peek_mut] *)
+Definition h_peek_mut (h : heap) (q : hlru) (k : key) (w : option val) : hres (heap * option val) :=
+  hdo r <- idx_find h (hidx q) k;
+  match r with
+  | None => HOk (h, None)
+  | Some n => hdo (h1, e) <- h_write h n w; HOk (h1, Some (snd e))
+  end.
+
+Definition h_contains (h : heap) (q : hlru) (k : key) : hres bool :=
+  hdo r <- idx_find h (hidx q) k; HOk (match r with Some _ => true | None => false end).
+
+(** [get_lru] / [get_lru_mut]: [if self.is_empty() { return None }], then [tail.prev] is unlinked,
+    linked at the front and read *)
+Definition h_get_lru (h : heap) (q : hlru) (w : option val) : hres (heap * option entry) :=
+  if Nat.eqb (length (hidx q)) 0 then HOk (h, None)
+  else
+    hdo n <- tail_prev h q;
+    hdo h1 <- detach h n;
+    hdo h2 <- attach h1 q n;
+    hdo (h3, e) <- h_write h2 n w;
+    HOk (h3, Some e).
+
+(** [peek_lru] / [peek_lru_mut] *)
+Definition h_peek_lru (h : heap) (q : hlru) (w : option val) : hres (heap * option entry) :=
+  if Nat.eqb (length (hidx q)) 0 then HOk (h, None)
+  else
+    hdo n <- tail_prev h q;
+    hdo (h1, e) <- h_write h n w;
+    HOk (h1, Some e).
+
+(** [peek_mru] / [peek_mru_mut] / [get_mru] / [get_mru_mut]: [head.next] *)
+Definition h_peek_mru (h : heap) (q : hlru) (w : option val) : hres (heap * option entry) :=
+  if Nat.eqb (length (hidx q)) 0 then HOk (h, None)
+  else
+    hdo (_, _, _, n) <- hread h (hhead q);
+    hdo (h1, e) <- h_write h n w;
+    HOk (h1, Some e).
+
+(** [peek_or_put] / [peek_mut_or_put] / [contains_or_put] *)
+Definition h_peek_mut_or_put (h : heap) (q : hlru) (k : key) (v : val) (w : option val)
+  : hres (heap * hlru * option val * option put_result) :=
+  hdo (h1, r) <- h_peek_mut h q k w;
+  match r with
+  | Some x => HOk (h1, q, Some x, None)
+  | None => hdo (h2, q2, pr) <- h_put h1 q k v; HOk (h2, q2, None, Some pr)
+  end.
+
+Definition h_contains_or_put (h : heap) (q : hlru) (k : key) (v : val)
+  : hres (heap * hlru * bool * option put_result) :=
+  hdo b <- h_contains h q k;
+  if b then HOk (h, q, true, None)
+  else hdo (h2, q2, pr) <- h_put h q k v; HOk (h2, q2, false, Some pr).
+
 (** ** the public operations as one step function; histories *)
 Inductive hop :=
 | HPut (k : key) (v : val)
@@ -336,13 +398,23 @@ Inductive hop :=
 | HRemove (k : key)
 | HRemoveLru
 | HPurge
-| HResize (c : nat).
+| HResize (c : nat)
+| HPeekMut (k : key) (w : option val)
+| HContains (k : key)
+| HGetLru (w : option val)                (* [get_lru] is [HGetLru None] *)
+| HPeekLru (w : option val)
+| HPeekMru (w : option val)               (* also [get_mru] / [get_mru_mut] *)
+| HPeekMutOrPut (k : key) (v : val) (w : option val)   (* [peek_or_put] is [w = None] *)
+| HContainsOrPut (k : key) (v : val).
 
 Inductive hout :=
 | OPut (r : put_result)
 | OVal (o : option val)
 | OEnt (o : option entry)
-| OUnit.
+| OUnit
+| OBool (b : bool)
+| OValPut (o : option val) (r : option put_result)
+| OBoolPut (b : bool) (r : option put_result).
 
 Definition hstep (h : heap) (q : hlru) (o : hop) : hres (heap * hlru * hout) :=
   match o with
@@ -353,6 +425,13 @@ Definition hstep (h : heap) (q : hlru) (o : hop) : hres (heap * hlru * hout) :=
   | HRemoveLru => hdo (h1, q1, r) <- h_remove_lru h q; HOk (h1, q1, OEnt r)
   | HPurge => hdo (h1, q1) <- h_purge h q; HOk (h1, q1, OUnit)
   | HResize c => hdo (h1, q1) <- h_resize h q c; HOk (h1, q1, OUnit)
+  | HPeekMut k w => hdo (h1, r) <- h_peek_mut h q k w; HOk (h1, q, OVal r)
+  | HContains k => hdo b <- h_contains h q k; HOk (h, q, OBool b)
+  | HGetLru w => hdo (h1, r) <- h_get_lru h q w; HOk (h1, q, OEnt r)
+  | HPeekLru w => hdo (h1, r) <- h_peek_lru h q w; HOk (h1, q, OEnt r)
+  | HPeekMru w => hdo (h1, r) <- h_peek_mru h q w; HOk (h1, q, OEnt r)
+  | HPeekMutOrPut k v w => hdo (h1, q1, a, b) <- h_peek_mut_or_put h q k v w; HOk (h1, q1, OValPut a b)
+  | HContainsOrPut k v => hdo (h1, q1, a, b) <- h_contains_or_put h q k v; HOk (h1, q1, OBoolPut a b)
   end.
 
 Fixpoint hrun (h : heap) (q : hlru) (os : list hop) : hres (heap * hlru * list hout) :=
